@@ -128,6 +128,10 @@ impl Prop for C29 {
                 // most nodes exist; references may mention nodes that do not
                 if rng.chance(5, 6) {
                     out.push(format!("node {}", x));
+                    // inserting an id twice is refused
+                    if rng.chance(1, 12) {
+                        out.push(format!("node {}", x));
+                    }
                 }
             }
             let mut edges: Vec<Triple> = Vec::new();
@@ -177,7 +181,12 @@ impl Prop for C29 {
             }
             if !edges.is_empty() && rng.chance(1, 4) {
                 let (a, t, b) = *rng.pick(&edges);
-                out.push(format!("unref {} {} {}", a, b, t));
+                // sometimes a near miss (the opposite direction)
+                if rng.chance(1, 4) {
+                    out.push(format!("unref {} {} {}", b, a, t));
+                } else {
+                    out.push(format!("unref {} {} {}", a, b, t));
+                }
             }
             if rng.chance(1, 3) {
                 out.push(format!("aggs {}", rng.pick(&nodes)));
@@ -195,6 +204,18 @@ impl Prop for C29 {
                 out.push(format!("delete {} {}", x, b(rng.chance(3, 4))));
                 if rng.chance(1, 4) {
                     out.push(format!("exists {}", rng.pick(&nodes)));
+                }
+                // histories: a deleted node comes back (its old references may still be there when
+                // it was deleted without them) and is deleted again
+                if rng.chance(1, 5) {
+                    out.push(format!("node {}", x));
+                    if rng.chance(1, 2) {
+                        let y = *rng.pick(&nodes);
+                        if y != x {
+                            out.push(format!("ref {} {} {}", x, y, rng.pick(&AGG)));
+                        }
+                    }
+                    out.push(format!("delete {} {}", x, b(rng.chance(1, 2))));
                 }
             }
         }
